@@ -57,7 +57,7 @@ fn sign_all(n: u8) -> Op {
 /// Cardano epoch: the signers register for the epoch after next (all / a subset / nobody, possibly with a new
 /// key) somewhere in the block, 3..7 freely generated operations, and the epoch change that ends it (sometimes
 /// several epochs at once, sometimes preceded by the operator's re-genesis).
-fn case_strategy() -> impl Strategy<Value = Case> {
+pub fn case_strategy() -> impl Strategy<Value = Case> {
     cfg_strategy().prop_flat_map(|cfg| {
         let n = cfg.n_signers;
         let full = (1u16 << n) - 1;
@@ -133,7 +133,7 @@ fn case_strategy() -> impl Strategy<Value = Case> {
 
 /// Honest, scripted histories: validation of the epoch-offset model (any disagreement here is a model bug until
 /// proven otherwise) and a floor for the required classes.
-fn scripted() -> Vec<Case> {
+pub fn scripted() -> Vec<Case> {
     let mut v = vec![];
     for (k, m, phi_pct) in [(5u64, 100u64, 95u8), (30, 100, 65)] {
         for n in [3u8, 5] {
@@ -255,12 +255,16 @@ pub fn run(args: &Args) -> i32 {
     let mut check = Check::new("C14", "exploration", args);
     check
         .rule(
-            "history = deployment start (genesis, first registrations, first epoch change; perturbable) + 6..31 generated \
-             operations (tick, epoch+1..3, immutable, blocks, register subset/late/rotated key, sign subset x target \
-             {current, superseded, not yet open, unknown} x {valid, duplicate, wrong message, next/previous epoch key} x \
-             {HTTP route, message-queue processor}, expire, restart, re-genesis) on the real aggregator; non-trivial = >= 2 \
-             certificates produced and at least one of: signature for a non-current open message, restart, multi-epoch \
-             jump, partial registration; distinct by the sequence of operation kinds",
+            "history = deployment start (genesis, first registrations, first epoch change; each step perturbable) + 2..4 \
+             epoch blocks; a block = registration for the epoch after next (all / subset / nobody, possibly a new key) at \
+             a generated position, 0..3 rounds (registered signers, all or some, sign what is currently asked for over the \
+             HTTP route or the message queue, then 1..2 ticks), 1..2 free operations at generated positions (tick, epoch \
+             change, immutable file, blocks, register current/late/ahead, sign subset x target {current, superseded, not \
+             yet open, unknown} x {valid, duplicate, wrong message, next/previous epoch key} x inlet, expire, restart, \
+             forced re-genesis), optional operator re-genesis when blocked, then epoch +1 (sometimes +2/+3) and ticks; \
+             run on the real aggregator, all invariants evaluated after every state-machine cycle and every operation; \
+             non-trivial = >= 2 certificates produced and at least one of: signature for a non-current open message, \
+             restart, multi-epoch jump, partial registration; distinct by the sequence of operation kinds",
         )
         .assume("chain/immutable/block inputs come from the repo's test doubles; signer stakes are constant; protocol parameters are constant over a history")
         .assume("the artifact task spawned after a certificate always finishes before the next event (its interruption is C15)")
@@ -279,6 +283,6 @@ pub fn run(args: &Args) -> i32 {
     let t = check.tier;
     let tolerated = crate::run::tolerated_keys(&check, args, &[]);
     check.enumerate("scripted-honest", scripted().into_iter(), false, |c| run_case_with(c, "scripted/", &tolerated, false));
-    check.section("histories", case_strategy, t.pick(176, 6000), |c| run_case_with(c, "", &tolerated, true));
+    check.section("histories", case_strategy, t.pick(400, 12000), |c| run_case_with(c, "", &tolerated, true));
     check.finish()
 }
